@@ -1070,3 +1070,70 @@ def _local_key(fn, l, memo, busy):
                 k = _op_key(fn, ops[0], memo, busy)
     memo[l] = k
     return k
+
+
+# ---------------------------------------------------------------------------------------------
+# small interprocedural helpers used to stay indifferent to "extract helper" refactorings
+
+def reads_field_transitively(p, fn, adt_suffix, field, depth=2, _seen=None):
+    """does fn, or a workspace callee within `depth` calls, read `field` of an ADT whose path ends with adt_suffix?"""
+    _seen = _seen or set()
+    if fn.id in _seen:
+        return False
+    _seen.add(fn.id)
+    for (adt, var, fld, mode, bb, line) in fn.field_accesses():
+        if adt and adt.endswith(adt_suffix) and fld == field:
+            return True
+    if depth <= 0:
+        return False
+    for c in fn.calls():
+        h = p.fns.get(c.resolved or "")
+        if h is not None and h.crate == fn.crate and reads_field_transitively(p, h, adt_suffix, field, depth - 1, _seen):
+            return True
+    return False
+
+
+def calls_transitively(p, fn, suffix, depth=2, _seen=None):
+    """does fn, or a workspace callee within `depth` calls, call a function whose name ends with suffix?"""
+    _seen = _seen or set()
+    if fn.id in _seen:
+        return False
+    _seen.add(fn.id)
+    for c in fn.calls():
+        if c.name.endswith(suffix):
+            return True
+    if depth <= 0:
+        return False
+    for c in fn.calls():
+        h = p.fns.get(c.resolved or "")
+        if h is not None and h.crate == fn.crate and calls_transitively(p, h, suffix, depth - 1, _seen):
+            return True
+    return False
+
+
+def false_answer_implies_false(p, h, fragments):
+    """for a bool-returning workspace predicate h: whenever h answers false, every test named in `fragments` (substrings of
+    the explorer's decision keys, e.g. 'contains_comment(arg1)') has answered false"""
+    from absint import explore, vkey, TooManyPaths
+    try:
+        paths = explore(h, pure=lambda c: True, max_paths=2000)
+    except TooManyPaths:
+        return False
+    seen = False
+    for path in paths:
+        if path.end != "ret" or path.ret is None:
+            if path.end in ("loop",):
+                return False
+            continue
+        ret = vkey(path.ret)
+        if ret == "true":
+            continue
+        seen = True
+        known = {fr for fr in fragments for k, v in path.decisions if fr in k and v is False}
+        if ret != "false":
+            if "!" in ret:
+                return False
+            known |= {fr for fr in fragments if fr in ret}
+        if not all(fr in known for fr in fragments):
+            return False
+    return seen
